@@ -177,6 +177,25 @@ func TestC07(t *testing.T) {
 			}
 			c.Ev.MarkExhaustive(fmt.Sprintf("%d hostile one-atom lines, each between ordinary lines and as the unterminated last line of a session", len(atoms)))
 		})
+		// names that are bound nowhere, of every make — near a visible name, near a built-in, with code points that
+		// normalisation rewrites, one code point long, very long — read, called, assigned, indexed: a runtime error
+		c.Sub("undefined-names", func(s *Sub) {
+			names := []string{"ব\u09dfস", "ব\u09af\u09bcস", "ব\u09dc", "গা\u09dd\u09bf", "ক\u09cbণ", "ক\u09c7\u09beণ", "caf\u00e9s", "cafe\u0301s", bn.BLen + "ন", bn.BLen[:len(bn.BLen)-3], bn.BInput + "_", "arrr", "ar", "obk", "x", "q", "\u09df", "\u09df\u09df\u09df\u09df",
+				strings.Repeat("ন\u09be\u09ae_", 80), strings.Repeat("\u09dc", 40), "_", "__", "A\u030a", "\u212b", "f1", "ff"}
+			forms := []string{P + " %s;", "%s();", "%s = 1;", P + " arr[%s];", P + " %s.k;", P + " [1, %s];", "%s.k = 2;", P + " f(%s);", bn.KwIf + " (%s) " + P + " 1;", "%s[0] = 1;"}
+			prelude := c07Prelude + bn.KwVar + " ব\u09afস = 1;\n" + bn.KwVar + " ক\u09cbন = 2;\n" + bn.KwVar + " cafes = 3;\n" + bn.KwVar + " obj2 = {};\n"
+			var k int64
+			for _, n := range names {
+				for _, f := range forms {
+					k++
+					if !c.Mine(k) {
+						continue
+					}
+					c.c07Program(s, "undefined-names", prelude+P+" \"before\";\n"+fmt.Sprintf(f, n)+"\n"+P+" \"after\";\n", "", true, true, "undefined-name")
+				}
+			}
+			c.Ev.MarkExhaustive(fmt.Sprintf("%d unbound names x %d uses", len(names), len(forms)))
+		})
 		c.Sub("operator-matrix", func(s *Sub) {
 			var k int64
 			for _, op := range bn.BinOpList {
